@@ -527,6 +527,18 @@ func dominatedByFact(ins ssa.Instruction, text func(string) bool, truth bool) bo
 	return hit == nil && found
 }
 
+// reguarded reports whether ins, once executed, can only be executed again after crossing the fact edge
+// anew (the guard is re-evaluated on every iteration of an enclosing loop).
+func reguarded(ins ssa.Instruction, text func(string) bool, truth bool) bool {
+	q := &PathQuery{Fn: ins.Parent(), From: ins, Target: func(x ssa.Instruction) bool { return x == ins },
+		EdgeOK: func(b *ssa.BasicBlock, i int) bool {
+			t, tr, ok := edgeFact(b, i)
+			return !(ok && text(t) && tr == truth)
+		}}
+	_, hit := q.Find()
+	return hit == nil
+}
+
 // reachableFrom reports whether target is reachable from (after) instruction from.
 func reachableFrom(from, target ssa.Instruction) bool {
 	q := &PathQuery{Fn: from.Parent(), From: from, Target: func(x ssa.Instruction) bool { return x == target }}
